@@ -26,6 +26,9 @@ class C08Mixin(object):
         """Sizes of the identity caches and of the table registry (read defensively: the cache
         attributes are internals, a tree that renames them just gets a coarser fingerprint)."""
         fp = {}
+        reg = getattr(self.core, "PRIVATE_TABLES", None)
+        if isinstance(reg, dict):
+            fp["#registered"] = sorted(reg)
         for name, t in self._registry().items():
             els = list(getattr(t, "_element", {}).values()) or list(t)
             ni = nq = 0
@@ -110,8 +113,14 @@ class C08Mixin(object):
         kept = getattr(self, "kept", None)
         if kept is None:
             kept = self.kept = {}
+        import weakref
         kept[name] = [self.atom(name, r) for r in refs]
-        self.tables.pop(name, None)
+        t = self.tables.pop(name, None)
+        if t is not None:
+            if getattr(self, "dropped", None) is None:
+                self.dropped = {}
+            self.dropped[name] = weakref.ref(t)
+        del t
         gc.collect()
         return "ok"
 
